@@ -63,6 +63,7 @@ def destWrite (c : Cfg) (s : St) (data : Bytes) (n : Int) : St × Bool :=
 
 /-- `QIODeviceCopier::start()` -/
 def start (c : Cfg) (s : St) : St :=
+  let s := { s with stopped := false }
   if c.srcOpenFails then { s with log := s.log ++ [err, fin] } else
   if c.dstOpenFails then { s with log := s.log ++ [err, fin] } else
   let seekNeeded := rangeFrom c > 0 && !c.seq
